@@ -98,6 +98,11 @@ pub async fn idxcrash_cmd(rep: &mut Report, table: &str) {
         let vs: Vec<u64> = (0..n as u64).map(|j| v0 + j).collect();
         vers.insert(s.clone(), v0 + n as u64);
         w.record(prep, &json!({"first": r.first_partition_sequence, "vers": vs}));
+        // restarts while a segment is live: the segment is later sealed by a process that
+        // hydrated its indexes from the data file
+        if k == 1 || k == 8 {
+            crate::reopen(&mut w).await.expect("reopen during setup");
+        }
     }
     // let the background flush of the sealed segments' indexes finish, then stop
     tokio::time::sleep(std::time::Duration::from_millis(400)).await;
